@@ -31,11 +31,11 @@ ASSUMPTIONS = [
     "`cfg V system`: the System handle is built around the case's feed channel only (its engine task never runs); the command it puts on the feed is compared with, not substituted for, the event the shared protocol processes",
     "limits of the shared engine line protocol (harness/src/engine_proto.rs, Driver/EngineCommon.lean; not changed here): `ev fill` is only issued on an instrument that holds no position (the model event sets the position, the harness sends one trade), never with quantity 0 (the harness skips it as `noop`); market prices travel as f64 (PublicTrade.price), so generated prices are exact binary fractions; a filter with an EMPTY list (InstrumentFilter::Exchanges(Many(vec![])) etc.) has no syntax and is not generated",
 ]
-SOURCE_FILES = ["barter/src/engine/action/cancel_orders.rs", "barter/src/engine/action/close_positions.rs", "barter/src/strategy/close_positions.rs",
+SOURCE_FILES = ["barter/src/engine/state/position.rs", "barter/src/engine/action/cancel_orders.rs", "barter/src/engine/action/close_positions.rs", "barter/src/strategy/close_positions.rs",
                 "barter/src/engine/state/instrument/mod.rs", "barter/src/engine/state/instrument/filter.rs", "barter-execution/src/order/mod.rs",
                 "barter/src/engine/mod.rs", "barter/src/system/mod.rs", "barter/src/engine/state/order/mod.rs", "barter/src/engine/state/mod.rs",
                 "barter/src/engine/state/instrument/data.rs"]
-PREBUILD = [["python3", "tools/rust2lean_sm.py", "--require", "filters_actions"]]
+PREBUILD = [["python3", "tools/rust2lean_sm.py", "--require", "filters_actions,position_sm"]]
 CLAIM = True
 TECHNIQUE = ("Lean 4: membership characterisations of the generated request lists (filter / flatMap / filterMap over the indexed instrument list, cid sort proved a permutation), Nodup / strictly-increasing "
              "index arguments for multiplicity, a pointwise lemma for the effect of recording cancels on every table entry, key-uniqueness as an invariant of all engine histories; "
@@ -52,7 +52,7 @@ LEVEL_TEXT = ("Proof. lean/BarterModel/Props/C19.lean proves for EVERY engine st
               "keys_unique_invariant / tables_unique_invariant (the key-uniqueness hypothesis holds after any engine history from empty tables). "
               "The position a closing order is built from is the NET of the account trades: close_request_of_net_history (long net => SELL of exactly the signed sum, short net => BUY of its absolute value, zero net => no closing order), net_position_after_fills (after any history of positive fills from flat the carried (side, quantity) is the signed sum "
               "of the fills), fill_update_sets_net, netted_trade_is_recovered, and netting_is_the_position_model / entering_is_the_position_model (the engine-level netFill IS the C02 position model's "
-              "Position::update_from_trade projected on side and open quantity, for every position and every trade of positive quantity).")
+              "Position::update_from_trade projected on side and open quantity, for every position and every trade of positive quantity; netting_is_the_source: the same for update_from_trade as regenerated from position.rs on this run).")
 LEVEL_NOTE = ("Trusted: Lean kernel; axioms propext/Classical.choice/Quot.sound; the hand-written engine model shared with C03 (tied to the code by sampled correspondence through the real Engine::process with real "
               "tokio channels: 300 quick / 10k random + 8.4k enumerated thorough); harness and driver. Delivery (sent => delivered once on the addressed link) is C03's. The spec view for the oracle is the "
               "(proved) model restricted to the observables the property determines: deliveries per link, the command's sent/error report, every order table. "
